@@ -4,6 +4,7 @@
 From Coq Require Import ZArith NArith List Bool String.
 From DM Require Import Base.PyVal Spec.Nf Spec.Table Spec.Ops Proofs.TableFacts Proofs.OpFacts.
 From DM Require Import Spec.SeriesEnc Proofs.SeriesEncFacts.
+From DM Require Import Model.LTable Gen.KCore Model.Core Proofs.CoreRefine Proofs.SetColRefine.
 Import ListNotations.
 Open Scope string_scope.
 
@@ -30,6 +31,35 @@ Theorem C06_series_frame_partial : forall w so j,
   (j < List.length (pool w))%nat -> starget so <> Some j -> get (fst (sstep w so)) j = get w j.
 Proof. exact sstep_frame. Qed.
 Print Assumptions C06_series_frame_partial.
+
+(* DataMatrix._set_col with a column as the value, on the guard and the length test regenerated from the source:
+   dm[name] = dm2[name2] makes both names refer to ONE column exactly when dm2 is dm (the deliberate alias) and copies
+   the cells into a new column otherwise (refusing another length) ... *)
+Theorem C06_l1_column_assignment_alias_or_copy : forall (w : world) p ti name t2i name2,
+  pool w = map abs p -> winv p ->
+  match lstep p (OSetColFromCol ti name t2i name2) with
+  | LUpd i r => step w (OSetColFromCol ti name t2i name2) = (put w i (abs r), OkUnit)
+  | LErr => exists e, snd (step w (OSetColFromCol ti name t2i name2)) = Err e
+              /\ fst (step w (OSetColFromCol ti name t2i name2)) = w
+  | LSkip => True
+  | _ => False
+  end.
+Proof. exact setcolfromcol_refines. Qed.
+Print Assumptions C06_l1_column_assignment_alias_or_copy.
+
+(* ... and a column derived from dm (a slice by an index list) is never inserted by reference: it becomes a new,
+   independent column holding the addressed cells (in L0: add_slot, not an alias) *)
+Theorem C06_l1_derived_column_is_copied : forall (w : world) p ti name name2 l,
+  pool w = map abs p -> winv p ->
+  match lstep p (OSetColFromSlice ti name name2 l) with
+  | LUpd i r => step w (OSetColFromSlice ti name name2 l) = (put w i (abs r), OkUnit)
+  | LErr => exists e, snd (step w (OSetColFromSlice ti name name2 l)) = Err e
+              /\ fst (step w (OSetColFromSlice ti name name2 l)) = w
+  | LSkip => True
+  | _ => False
+  end.
+Proof. exact setcolfromslice_refines. Qed.
+Print Assumptions C06_l1_derived_column_is_copied.
 
 Example C06_alias_intended :
   let w := run [ONew 2; OSetCol 0 "a" (RSeq [PInt 1; PInt 2]); OSetColFromCol 0 "b" 0 "a";
